@@ -33,7 +33,17 @@ def decorate(src, rnd):
     out.append(("decorated", "import functools\n\n\n@functools.lru_cache(maxsize=None)\n@staticmethod\ndef deco_target(a, b=1):\n    return a\n\n\n" + src))
     out.append(("trailing-at-comment", src + "# @"))
     out.append(("formfeed-between-defs", "def a():\n    pass\n\x0c\n" + src))
+    out.append(("decorated-async-and-spaced-at", DECORATOR_FORMS + src))
+    out.append(("fstring-fragments", FSTRING_FORMS + src))
     return out
+
+
+# decorators on async definitions, '@' separated from the decorator by a space / a parenthesis / a continuation line, '@' as an operator
+DECORATOR_FORMS = ("import functools\n\n\n@functools.wraps(print)\n@ functools.lru_cache\nasync def deco_async(a):\n    return a\n\n\n"
+                   "@(\n    functools.lru_cache\n)\ndef deco_paren(b):\n    return b\n\n\n@ \\\n  functools.cache\nclass DecoClass:\n"
+                   "    @ staticmethod\n    async def m():\n        return 1\n\n\nm = a @ b\n")
+# literal parts of f-strings that begin / end with spaces (positions of their Constant nodes on Python >= 3.12)
+FSTRING_FORMS = ("name = 'x'\nmsg = f'  leading {name} middle  {name!r}  trailing  '\nprint(f\"from {name} import \", f'  {name}  ')\n")
 
 
 def parser_line_starts(src):
@@ -62,7 +72,7 @@ def oracle_span(src, node):
     if first is not node:
         # decorators: text starts at the '@' before the first decorator expression
         k = src.rfind("@", 0, start)
-        if k >= 0 and src[k + 1:start].strip() == "":
+        if k >= 0 and re.fullmatch(r"[\s(\\]*", src[k + 1:start]):       # "@foo", "@ foo", "@(<newline>foo)", "@<backslash newline>foo"
             start = k
         endseg = seg
         end = src.find(endseg, start)
@@ -97,11 +107,7 @@ def check_source(args):
             fails.append({"cls": f"{cls}:raises:{type(ex).__name__}", "what": f"get_charnos raised {type(ex).__name__}: {ex} on {type(node).__name__} at L{node.lineno}"})
             continue
         ws, we = want
-        wtext = src[ws:we]
-        # get_charnos trims spaces at both ends
-        lead = len(wtext) - len(wtext.lstrip(" "))
-        trail = len(wtext) - len(wtext.rstrip(" "))
-        ws, we = ws + lead, we - trail if trail else we
+        # the node text is exactly the standard library's segment: no trimming (the literal parts of an f-string may begin / end with spaces)
         if not (0 <= r.start <= r.end <= len(src)) or (r.start, r.end) != (ws, we):
             fails.append({"cls": f"{cls}:span", "what": f"{type(node).__name__} at L{node.lineno}:{node.col_offset}: span {tuple(r)} text {src[r.start:r.end][:40]!r}, node text is {src[ws:we][:40]!r} at {(ws, we)}"})
             if len(fails) > 3:
